@@ -7,7 +7,9 @@
     repository.FindRule, the route matchers and ruleImpl.Execute (C08/Model.v).
     [fx] says which repairs the modelled tree contains:
       [repaired]  the tree as it is now (fix: commits a779db8: lower-case %2f recognised,
-                  72ba5d4: path_params decoded under `off`),
+                  72ba5d4: path_params decoded under `off`, 6d0a3af: captured values decoded
+                  piece by piece without a place-holder, 41fd1db: C15-F1),
+      [before_F5] the tree before 6d0a3af (kept to document finding C08-F5),
       [fixed_F2]  the tree before 72ba5d4 (kept to document finding C08-F3),
       [pinned]    the tree before a779db8 (kept to document finding C08-F2).
 
@@ -18,8 +20,7 @@
     Open findings and their guards (conditions on the input, C08/Spec.v):
       C08-F1 [guard_F1 rules p p']  a literal segment of some path expression compares
                                     differently with the two spellings
-      C08-F4 [guard_F4 p]           a byte net/url does not accept in an encoded path
-      C08-F5 [guard_F5 p]           a '$' in the decoded path *)
+      C08-F4 [guard_F4 p]           a byte net/url does not accept in an encoded path *)
 From HV Require Import Base.Prelude Base.GoUrl Base.GoUrlFacts C08.Model C08.Proofs.
 
 Local Open Scope string_scope.
@@ -140,11 +141,10 @@ Print Assumptions C08_F2_off_pinned_refuted.
 
 (** `off`: an accepted request has no encoded slash, and every captured value is a
     piece of the request path (a segment, or the rest of the path from some
-    segment on), decoded — outside C08-F4, C08-F5 *)
+    segment on), decoded — outside C08-F4 *)
 Theorem C08_off_captures_decoded : forall rules dflt host q p rid cs up,
   p <> "*" ->
   guard_F4 p = false ->
-  guard_F5 p = false ->
   (forall r, In r rules -> r_id r = rid -> r_setting r = Off) ->
   serve repaired rules dflt host p q = Accepted rid false cs up ->
   enc_slash p = false /\
@@ -154,24 +154,34 @@ Print Assumptions C08_off_captures_decoded.
 
 (** * 3. `no_decode` and `on` *)
 
-(** the place-holder technique of rule_impl.go's [unescape] (used for `off` and
-    `no_decode`) computes "decode everything except the encoded slash (either
-    case), which stays encoded" — outside C08-F5 *)
+(** rule_impl.go's [unescape] for `off` and `no_decode` (piece-by-piece decoding
+    around the encoded slashes, since 6d0a3af) computes "decode everything except
+    the encoded slash (either case), which stays encoded" for every well-formed
+    value — no guard *)
 Theorem C08_capture_decoding : forall st v,
   wfenc v ->
-  guard_F5 v = false ->
   unescape_capture repaired st v =
   match st with On => unescape_or_empty v | _ => decode_keep_slash v end.
 Proof. exact capture_decoding_repaired. Qed.
 Print Assumptions C08_capture_decoding.
 
+(** the place-holder technique used before 6d0a3af computed the same outside
+    C08-F2 and C08-F5 ([guard_F5 v] = a '$' in the decoded value) *)
+Theorem C08_capture_decoding_parametric : forall fx st v,
+  wfenc v ->
+  (fx2 fx = true \/ contains "%2f" v = false) ->
+  (fx5 fx = true \/ guard_F5 v = false) ->
+  unescape_capture fx st v =
+  match st with On => unescape_or_empty v | _ => decode_keep_slash v end.
+Proof. exact capture_decoding. Qed.
+Print Assumptions C08_capture_decoding_parametric.
+
 (** `no_decode`: every captured value is a piece of the request path decoded
     except for the encoded slash, which stays encoded; a rule that forwards
-    without rewriting sends the request path as it is — outside C08-F4, C08-F5 *)
+    without rewriting sends the request path as it is — outside C08-F4 *)
 Theorem C08_nodecode_keeps : forall rules dflt host q p rid cs up,
   p <> "*" ->
   guard_F4 p = false ->
-  guard_F5 p = false ->
   (forall r, In r rules -> r_id r = rid -> r_setting r = NoDecode) ->
   serve repaired rules dflt host p q = Accepted rid false cs up ->
   Forall (fun kv => exists v, piece_of p v /\ snd kv = decode_keep_slash v) cs /\
@@ -186,7 +196,6 @@ Print Assumptions C08_nodecode_keeps.
 Theorem C08_on_decodes : forall rules dflt host q p rid cs up,
   p <> "*" ->
   guard_F4 p = false ->
-  guard_F5 p = false ->
   (forall r, In r rules -> r_id r = rid -> r_setting r = On) ->
   serve repaired rules dflt host p q = Accepted rid false cs up ->
   Forall (fun kv => exists v, piece_of p v /\ snd kv = unescape_or_empty v) cs /\
@@ -206,12 +215,13 @@ Theorem C08_nodecode_on_nonvacuous :
 Proof. exact nodecode_on_repaired_nonvacuous. Qed.
 Print Assumptions C08_nodecode_on_nonvacuous.
 
-Theorem C08_F5_nodecode_refuted :
+(** C08-F5 on the tree before 6d0a3af *)
+Theorem C08_F5_nodecode_pinned_refuted :
   guard_F5 "/files/x$$$escaped-slash$$$y" = true /\
-  (exists up, serve repaired w_rules_nd false "h" "/files/x$$$escaped-slash$$$y" "" = Accepted "nd" false [("rest", "x%2Fy")] up) /\
+  (exists up, serve before_F5 w_rules_nd false "h" "/files/x$$$escaped-slash$$$y" "" = Accepted "nd" false [("rest", "x%2Fy")] up) /\
   decode_keep_slash "x$$$escaped-slash$$$y" = "x$$$escaped-slash$$$y".
-Proof. exact F5_nodecode_repaired_refuted. Qed.
-Print Assumptions C08_F5_nodecode_refuted.
+Proof. exact F5_nodecode_pinned_refuted. Qed.
+Print Assumptions C08_F5_nodecode_pinned_refuted.
 
 (** C08-F2 under `no_decode` on the tree before a779db8: the lower-case slash was decoded *)
 Theorem C08_F2_nodecode_pinned_refuted :
